@@ -1836,7 +1836,7 @@ func (tc *typechecker) checkExplicitConversion(expr *ast.Call) *typeInfo {
 	case arg.IsConstant():
 		k := t.Type.Kind()
 		if k == reflect.Interface {
-			if t.Type.NumMethod() == 0 {
+			if t.Type.NumMethod() == 0 || !arg.IsUntypedConstant() && types.Implements(arg.Type, t.Type) {
 				_, err = arg.Constant.representedBy(arg.Type)
 			} else {
 				err = errTypeConversion
